@@ -46,6 +46,8 @@ Byte(h1, h2) == LET x == <<h1, h2>>
                 IN CASE x = <<"2", "0">> -> " "
                      [] x = <<"2", "5">> -> "%"
                      [] x = <<"3", "A">> -> ":"
+                     [] x = <<"2", "3">> -> "#"
+                     [] x = <<"3", "F">> -> "?"
                      [] x = <<"2", "F">> -> "/"
                      [] x = <<"2", "E">> -> "."
                      [] x = <<"4", "1">> -> "A"
@@ -71,6 +73,8 @@ Unquote(s) == UnquoteFrom(s, 1)
 QuoteChar(c) == CASE c = " " -> <<"%", "2", "0">>
                   [] c = "%" -> <<"%", "2", "5">>
                   [] c = ":" -> <<"%", "3", "A">>
+                  [] c = "#" -> <<"%", "2", "3">>
+                  [] c = "?" -> <<"%", "3", "F">>
                   [] c = UMark -> UBytes
                   [] Len(c) = 4 -> <<"%", SubSeq(c, 2, 2), SubSeq(c, 3, 3)>>     \* a byte token "<XY>" (control character)
                   [] OTHER -> <<c>>
@@ -117,6 +121,7 @@ FileScheme == Chars("file://")
 Remap(s, old, new) ==
   IF HasColonSlash(s)
   THEN IF Scheme(s) = Chars("file")
+       \* path[7:], NOT urlsplit(path).path: a literal "#" or "?" is an ordinary character of the name
        THEN FileScheme \o JoinDir(new, RelParts(Unquote(Drop(s, 7)), old))
        ELSE s
   ELSE JoinDir(new, RelParts(Unquote(s), old))
